@@ -96,7 +96,8 @@
 (*   User(x,fail)     indexing.do_index (its indexing loop raises if fail) *)
 (*   ImportPBP(x)     import ImageD11.sinograms.point_by_point (sets       *)
 (*                    OMP_NUM_THREADS=1, imports the module, calls         *)
-(*                    check_multiprocessing(patch=True))                   *)
+(*                    check_multiprocessing(patch=True); a second call     *)
+(*                    comes from sinograms/properties.py:18)               *)
 (*   TStart(w) TCheck(w) TWork(w) TRaise(w) StopSet  worker threads of P   *)
 (*                                                                         *)
 (* Laws (what a user relies on; decided from code, docstrings, comments    *)
@@ -344,7 +345,9 @@ User(x, fail) ==
     /\ Log(<<"user", x, "do_index", fail>>, IF fail THEN "exc:Boom" ELSE "seen:1", 0, 0)
 
 \* import ImageD11.sinograms.point_by_point (point_by_point.py:7-15): os.environ["OMP_NUM_THREADS"] = "1", then
-\* `from ImageD11 import cImageD11`, then cImageD11.check_multiprocessing(patch=True); nothing on a second import
+\* `from ImageD11 import cImageD11`, then cImageD11.check_multiprocessing(patch=True); its import of
+\* ImageD11.sinograms.dataset brings in sinograms/properties.py, whose line 18 calls check_multiprocessing(patch=True)
+\* once more; nothing on a second import
 ImportPBP(x) ==
     /\ Acts(x) /\ Allowed(x, "pbp")
     /\ UNCHANGED <<env, wk, texc>>
@@ -354,9 +357,10 @@ ImportPBP(x) ==
          ELSE LET r0 == [pr[x] EXCEPT !.eomp = 1, !.pbp = TRUE]
                   e1 == IF r0.loaded THEN [rec |-> r0, nw |-> 0]
                         ELSE CheckEffect([r0 EXCEPT !.loaded = TRUE, !.reg = InitReg(r0)], x = "C", FALSE)
-                  e2 == CheckEffect(e1.rec, x = "C", TRUE)
-              IN /\ pr' = [pr EXCEPT ![x] = e2.rec]
-                 /\ Log(<<"pbp", x>>, "ok", e1.nw + e2.nw, 0)
+                  e2 == CheckEffect(e1.rec, x = "C", TRUE)          \* point_by_point.py:15
+                  e3 == CheckEffect(e2.rec, x = "C", TRUE)          \* sinograms/properties.py:18
+              IN /\ pr' = [pr EXCEPT ![x] = e3.rec]
+                 /\ Log(<<"pbp", x>>, "ok", e1.nw + e2.nw + e3.nw, 0)
 
 \* ---- worker threads of the parent (ImageD11_thread.py) ---------------------------------------
 TStart(w) ==
@@ -423,9 +427,9 @@ SetGet == [][Stepped /\ LastOp[1] = "set" => pr'[LastOp[2]].reg = Max(LastOp[3],
 
 \* the fork warning: exactly the situations of cImageD11.py:56-57 and :70-72
 RunsCheck == LastOp[1] = "checkmp" \/ (LastOp[1] = "import" /\ ~pr[LastOp[2]].loaded)
-PbpWarns(x) == LET g == pr[x].gs                                \* two checks when the module was not loaded yet
+PbpWarns(x) == LET g == pr[x].gs                \* two explicit checks, three when the module was not loaded yet
                    one == (IF g = "fork" THEN 1 ELSE 0) + (IF x = "C" /\ g \in {"fork", "none"} THEN 1 ELSE 0)
-               IN IF pr[x].pbp THEN 0 ELSE IF pr[x].loaded THEN one ELSE 2 * one
+               IN IF pr[x].pbp THEN 0 ELSE IF pr[x].loaded THEN 2 * one ELSE 3 * one
 WarnRule ==
     [][Stepped =>
         IF RunsCheck
